@@ -921,7 +921,11 @@ func FT() []*Program {
 			ExtraImports: []string{`"verifcorpus/ext/extapp"`}, Consts: consts,
 			Decls: []Decl{{Name: "InitP", Request: "*T0", Provs: []Prov{
 				func() Prov { p := ext("extapp.LoadConfig", nil, []string{"*config.Config"}); p.Async = true; return p }(),
-				func() Prov { p := ext("extapp.NewServer", []string{"*config.Config"}, []string{"*extapp.Server"}); p.Async = true; return p }(),
+				func() Prov {
+					p := ext("extapp.NewServer", []string{"*config.Config"}, []string{"*extapp.Server"})
+					p.Async = true
+					return p
+				}(),
 				asyncFn("NewT1", nil, []string{"*T1"}),
 				asyncFn("NewT2", []string{"*T1"}, []string{"*T2"}),
 				fn("NewT0", []string{"*extapp.Server", "*T2"}, []string{"*T0"}, false)}}}})
@@ -929,12 +933,16 @@ func FT() []*Program {
 	// package named like a predeclared identifier
 	out = append(out, &Program{Family: "FT", Desc: "argument type from a transitively reached package named max", Types: typeNames(1),
 		ExtraImports: []string{`"verifcorpus/ext/extapp"`},
-		Decls: []Decl{{Name: "InitP", Request: "*extapp.Server", Provs: []Prov{ext("extapp.NewLimited", []string{"*max.Limit"}, []string{"*extapp.Server"})}}}})
+		Decls:        []Decl{{Name: "InitP", Request: "*extapp.Server", Provs: []Prov{ext("extapp.NewLimited", []string{"*max.Limit"}, []string{"*extapp.Server"})}}}})
 	out = append(out, &Program{Family: "FT", Desc: "var-block type from a transitively reached package named max", Types: typeNames(3),
 		ExtraImports: []string{`"verifcorpus/ext/extapp"`},
 		Decls: []Decl{{Name: "InitP", Request: "*T0", Provs: []Prov{
 			func() Prov { p := ext("extapp.LoadLimit", nil, []string{"*max.Limit"}); p.Async = true; return p }(),
-			func() Prov { p := ext("extapp.NewLimited", []string{"*max.Limit"}, []string{"*extapp.Server"}); p.Async = true; return p }(),
+			func() Prov {
+				p := ext("extapp.NewLimited", []string{"*max.Limit"}, []string{"*extapp.Server"})
+				p.Async = true
+				return p
+			}(),
 			asyncFn("NewT1", nil, []string{"*T1"}),
 			asyncFn("NewT2", []string{"*T1"}, []string{"*T2"}),
 			fn("NewT0", []string{"*extapp.Server", "*T2"}, []string{"*T0"}, false)}}}})
